@@ -25,6 +25,10 @@ CHECKS = {
    technique="TLC model checking of spec/Widths.tla (offset-vector table: invariant Represents after every set, all small /W arrays in any order) and spec/CMap.tla (writer/reader/conformant texts) + replay through Font::widths and write_cmap/Font::to_unicode",
    text="Real model checking of the width-table data structure (five growth cases, invariant after every set, all arrays of <=3 disjoint groups in every order) and of the cmap writer/reader pair (all small maps; all well-formed texts with bfchar and both bfrange forms); three deviation switches refuted; every array/map/text is realised as a font dictionary or ToUnicode stream and read through the public API, scaled to the 16-bit code range by offsets.",
    note="Bounded code and target domains in the model; trusted: TLC, mkpdf, the harness' conformant cmap printer."),
+ "C12": dict(level="model_checking", design="5/C12", engine="A:cache",
+   technique="TLC model checking of spec/CacheView.tla (object cache with typed downcast/fallback and error entries, stream cache with caller-supplied filter subsets; invariant Answer = Uncached) + replay of all short call sequences under all four cache configurations",
+   text="TLC checks on the full reachable graph (<=5 calls) that in the intended design every answer equals the uncached answer in all four cache configurations and refutes the two deviations; all call sequences of length 3/4 are executed against the real File API with real SyncCache/NoCache combinations and compared call by call with a lone uncached run.",
+   note="One generated document; the stream-cache finding is predicted by the as-built model and suppressed only where the observation equals the prediction."),
 }
 
 def main():
